@@ -54,6 +54,12 @@ func init() {
 	extend("C04", "C04_matmul", nil, func() []Item { return pairItemsLo(2, 2, 4) })
 	extend("C06", "C06_slice", func() []Item { return rankItems(1, 1, 4, nil) }, func() []Item { return rankItems(1, 2, 4, nil) })
 	extend("C06", "C06_reshape", nil, func() []Item { return rankItems(1, 2, 4, map[string]int64{"maxrank2": 4}) })
+	extend("C06", "C06_broadcast", func() []Item { return rankItems(1, 2, 2, map[string]int64{"maxrank2": 4}) }, func() []Item { return rankItems(1, 2, 3, map[string]int64{"maxrank2": 4}) })
+	extend("C03", "C03_binary", nil, func() []Item {
+		return sItems("op", []string{"Add", "Mul"}, []Item{{P: map[string]int64{"ra": 2, "rb": 4, "maxdim": 2}}, {P: map[string]int64{"ra": 4, "rb": 2, "maxdim": 2}}})
+	})
+	extend("C07", "C07_explicit", func() []Item { return rankItems(1, 2, 2, map[string]int64{"maxrank2": 4}) }, nil)
+	extend("C09", "C09_binary", func() []Item { return sItems("fn", []string{"MatMul", "Dot"}, items(map[string]int64{"maxrank": 3})) }, nil)
 	extend("C07", "C07_explicit", nil, func() []Item { return rankItems(0, 2, 4, map[string]int64{"maxrank2": 2}) })
 	extend("C14", "C14_act",
 		func() []Item { return actItems(1, 1, 5, []int64{0}) },
